@@ -5,7 +5,8 @@ from vf.runner import Result
 
 ID = "C08"
 BUDGET = {"quick": 320, "thorough": 5000}
-RULE = ("Programs from G in canonical layout x EVERY applicable single structural edit from a whitelist that provably "
+RULE = ("Programs from G in canonical layout (half of them with comment, cpp and unresolved INCLUDE lines between the "
+        "statements; reader options drawn per case) x EVERY applicable single structural edit from a whitelist that provably "
         "leaves an invalid program: delete the opener or END of an IF/DO(END DO-terminated)/SELECT CASE/SELECT TYPE/"
         "WHERE/FORALL/ASSOCIATE/BLOCK/CRITICAL construct, TYPE/INTERFACE/ENUM definition or subprogram; duplicate such "
         "an opener; insert a surplus construct END; change the construct/unit name on an END; add a name to the END "
@@ -84,8 +85,18 @@ def build(rnd, tier, flags):
     r = gen.R(rnd)
     meta = progs.meta_of(flat)
     std = "f2008" if (meta["f08"] or g.o.f08) else r.pick(["f2003", "f2008"])
-    lines = [gen.stmt_text(st) for st, _ in flat]
-    idx = {st.uid: i for i, (st, _) in enumerate(flat)}
+    # the statements, one per line; in half of the programs comment, cpp and unresolved INCLUDE lines sit between them
+    decorate = r.chance(50)
+    lines, idx = [], {}
+    for st, _ in flat:
+        if decorate and r.chance(18):
+            for _k in range(r.n(1, 2)):
+                lines.append(r.pick(["! a comment", "!> doc comment for what follows", "#ifdef X", "#endif", "#define N 1",
+                                     "include 'not_there.inc'", "#include \"x.h\"", "#else"]))
+        idx[st.uid] = len(lines)
+        lines.append(gen.stmt_text(st))
+    meta["decorated"] = decorate
+    flat_at = {idx[st.uid]: (st, d) for st, d in flat}
     depth = {st.uid: d for st, d in flat}
     edits = []   # [kind, op, line index, text or None, depth, named]
     excl = {}
@@ -143,9 +154,9 @@ def build(rnd, tier, flags):
             ci = idx[b.closer.uid]
             edits.append(["rename-end:" + kind, "rep", ci, lines[ci][:-len(b.scope_name)] + "zz9wrong", d, True])
     # parentheses
-    cand = [i for i, (st, _) in enumerate(flat) if "(" in st.src or r.chance(10)]
+    cand = [idx[st.uid] for st, _ in flat if "(" in st.src or r.chance(10)]
     for i in cand[: (12 if tier == "quick" else 40)]:
-        st, d = flat[i]
+        st, d = flat_at[i]
         lax = (st.kind in ("end_interface", "interface", "tb_generic")
                or (st.kind in ("type_decl", "attr") and ("intent(" in st.src)))
         if lax and skip("no_paren_edit_use_procdecl_endinterface"):
@@ -178,6 +189,8 @@ def evaluate(case):
     lines, std = case["lines"], case["std"]
     opts = dict(case.get("reader_opts") or {})
     labels = ["std=" + std] + ["opt:%s=%s" % kv for kv in sorted(opts.items())]
+    if case.get("meta", {}).get("decorated"):
+        labels.append("comment-cpp-include-lines-between-statements")
     o = guarded_parse("\n".join(lines) + "\n", std=std, **opts)
     if o.kind != "tree":
         return Result(True, None, False, labels, precondition_failed=True)
